@@ -1,6 +1,7 @@
 package twig
 
 import (
+	"reflect"
 	"strings"
 
 	"github.com/tyler-sommer/stick"
@@ -27,7 +28,9 @@ func (e *AutoEscapeExtension) Init(env *stick.Env) error {
 		}
 
 		if sval, ok := val.(stick.SafeValue); ok {
-			if sval.IsSafe(ct) {
+			// (A nil pointer to a SafeValue implementation is not asked: its
+			// methods may dereference it. It prints as nothing anyway.)
+			if rv := reflect.ValueOf(val); !(rv.Kind() == reflect.Ptr && rv.IsNil()) && sval.IsSafe(ct) {
 				return val
 			}
 		}
